@@ -363,7 +363,17 @@ func JudgeHistory(c Case) []Finding {
 			return err == nil && v >= now
 		}
 		valid := false
-		switch q.Route {
+		route := q.Route
+		if q.Canon != "" {
+			route = q.Canon
+		}
+		if route == "line" { // a raw request line: Go's own url / path libraries say which operation it aims at
+			route, q.ID = CanonOf(q.Method, q.Target)
+			if route == "public" {
+				valid = true // the documentation resources and OPTIONS * answer 200 to anybody
+			}
+		}
+		switch route {
 		case "session":
 			valid = q.Auth.Good(now, c.Cfg.Host) && cl.Topic == q.ID && (cl.Booking != "" || c.Cfg.AE) && !denied[cl.Booking]
 		case "deny", "allow":
